@@ -170,9 +170,62 @@ def deep_worker(job):
     return shard
 
 
+# ------------------------------------------------------------------ names left behind by earlier compilations
+
+LEAK_TARGETS = [
+    ('out int v = 0;\nout int n = 0;\nparser { "x"; v = 7; "y"; }\n', ["-O1"]),
+    ('out int n = 0;\nparser { loop lp { "a"; n = [n + 1]; if n == 2 { break lp; } } "z"; }\n', ["-O1"]),
+    ('out int v = 0;\nhook h;\nmacro bump(out w) { w = 3; h(); }\nparser { "x"; bump(v); "y"; }\n', ["-O3"]),
+    ('parser { loop { "a"; break nosuch; } }\n', []),
+    ('out int n = 0;\nparser { "a"; n = bogus; "b"; }\n', []),
+    ('out int n = 0;\nparser { "a"; finish; loop { "b"; break nosuch; } }\n', ["-O3"]),
+    ('out str[4] v;\nhook h;\nparser { v += "xy"; h(); "y"; }\n', ["-O2"]),
+    ('out int v = 0;\nmacro m(expr e, match k) { k; v = e; }\nparser { m(5, "x"); m([v + 1], "y"); }\n', []),
+]
+LEAK_HISTORY = [
+    ('out int n = 0;\nmacro bump(out v) { v = bogus; }\nparser { bump(n); "a"; }\n', []),                       # rejected inside a macro expansion (out argument)
+    ('parser { loop nosuch { "a"; break nosuch; } }\n', []),                                                       # accepted; defines a loop name
+    ('hook v;\nout str[4] n;\nparser { "q"; v(); n += "r"; }\n', ["-O3"]),                                          # same names, other kinds
+    ('out int k = 0;\nmacro m(expr v, match n) { n; undefinedhook(); }\nparser { m(5, "k"); }\n', []),            # rejected inside a macro expansion (expr / match arguments)
+    ('out int k = 0;\nmacro q(expr bogus) { k = bogus; }\nparser { "a"; q(4); }\n', []),                          # accepted; parameter named like a later undefined name
+    ('out int k = 0;\nmacro q(expr bogus, out w, hook h) { w = bogus; h(); nosuchmacro(); }\nhook g;\nparser { "a"; q(4, k, g); }\n', []),   # rejected with a full frame
+    ('out int n = 0;\nparser { loop lp { loop nosuch { "a"; break lp; } } }\n', ["-O3"]),
+    ('out int v = 0;\nmacro outer(out w) { inner(w); }\nmacro inner(out v) { v = 1; "a"; break nowhere; }\nparser { outer(v); }\n', []),   # rejected two expansions deep
+]
+
+
+def leak_worker(job):
+    """Small programs over one shared vocabulary of names (v, n, lp, h, m, bogus, nosuch) compiled alone and after histories of accepted and
+    rejected programs that bind the same names to other things (macro parameters of every kind, loop names, outputs of other types)."""
+    ti, hist_ids, known = job
+    shard = Shard()
+    src, argv = LEAK_TARGETS[ti]
+    hists = [[LEAK_HISTORY[i] for i in ids] for ids in hist_ids]
+    try:
+        check_program(shard, src, argv, [0x61, 0x78, 0x79, 0x7a], hists, max_len=4)
+    except Failure as f:
+        if f.sig in known:
+            shard.known_hits[f.sig] += 1
+        else:
+            shard.failures.append({"sig": f.sig, "what": "target %d after histories %r: %s" % (ti, hist_ids, f.what), "replay": dict(f.replay, histories=hist_ids)})
+    shard.event("leak_cases")
+    return shard
+
+
 def main(ctx):
     quick = ctx.tier == "quick"
     known = tuple(ctx.open_keys)
+    nh = len(LEAK_HISTORY)
+    singles = [[i] for i in range(nh)]
+    pairs = [[i, j] for i in range(nh) for j in range(nh) if i != j]
+    if quick:
+        pairs = [p for k, p in enumerate(pairs) if (k + ctx.seed) % 7 == 0]
+    jobs = []
+    for ti in range(len(LEAK_TARGETS)):
+        allh = singles + pairs
+        for k in range(0, len(allh), 5):
+            jobs.append((ti, allh[k:k + 5], known))
+    ctx.pmap(leak_worker, jobs)
     ctx.pmap(deep_worker, [(d, known) for d in ((430, 580, 1200, 2000) if quick else (340, 380, 420, 460, 500, 540, 580, 640, 720, 800, 1000, 1400, 1700, 2000, 2400, 3000))])
     corpus = sorted(glob.glob(os.path.join(common.REPO, "example", "test", "*.ok.nmfu")))
     if quick:
@@ -185,11 +238,12 @@ def main(ctx):
                 "after 1-3 other compilations (rejected ones and other flag sets included, kept alive or released), twice in a row, with heap "
                 "perturbation; evaluations = child compilations. All must agree on verdict + error class and on the abstract machine's behaviour on "
                 "every input up to length 4 over <= 5 byte-class representatives (C text compared after address normalisation). "
+                "Plus 8 small targets over a shared vocabulary of names after every single and (a rotating 1/7 in the quick tier, all in the thorough tier) every ordered pair of 8 history programs - accepted and rejected, the latter failing inside macro expansions - that bind the same names otherwise. "
                 "Plus programs with an expression nested 340-3000 deep (around the 'nested too deeply' threshold) after rejected / accepted histories. "
                 "Non-trivial: program with set-iteration-prone constructs compared under >= 3 settings; distinct by source.")
     ctx.assumptions = ["behavioural equality is decided on vlib/am.py over short inputs; C text equality (after normalising addresses) is sufficient but not required",
                        "heap layout cannot be enumerated, only perturbed"]
-    ctx.required_classes = ["programs", "corpus_cases", "deep_cases"]
+    ctx.required_classes = ["programs", "corpus_cases", "deep_cases", "leak_cases"]
 
 
 def replay(ctx, data):
